@@ -28,7 +28,7 @@ fn n_grid_b() -> u64 {
 }
 // rejections: negative N x via x {nack-like would-be effect: n/a}, bad id x position(3) x seconds {0, 30} x via
 fn n_grid_c() -> u64 {
-    (NEG.len() * 2 * 2 + BAD_IDS.len() * 3 * 2 * 2 + 4) as u64
+    (NEG.len() * 2 * 2 + BAD_IDS.len() * 3 * 2 * 2 + 4 + 4) as u64
 }
 
 // mixed batches: dead IDs in front of live ones, duplicates, same-deadline modification
@@ -314,9 +314,26 @@ async fn grid_c(p: &EpParams, case: u64) -> EpReport {
         secs = vec![sec; 3];
         label = format!("bad-id {:?} pos={} secs={} via={}", bad, pos, sec, via);
         expect_reject = true;
+    } else if case < n_neg + n_bad + 4 {
+        // a long batch (well over a thousand IDs) whose only malformed element comes last
+        let k = case - n_neg - n_bad;
+        via = VIA[(k % 2) as usize];
+        let sec = if (k / 2) % 2 == 0 { 0 } else { 30 };
+        su = setup(p, via == "stream").await;
+        if su.ids.len() != 2 {
+            rep.inconclusive("setup did not hand out two messages");
+            return rep;
+        }
+        let mut v = vec![su.ids[0].clone(), su.ids[1].clone()];
+        v.extend((0..1300).map(|i| format!("{}", 700_000 + i)));
+        v.push("not-an-ack-id".to_string());
+        secs = vec![sec; v.len()];
+        ids = v;
+        label = format!("bad-id last of 1303 secs={} via={}", sec, via);
+        expect_reject = true;
     } else {
         // unknown and stale IDs are ignored
-        let k = case - n_neg - n_bad;
+        let k = case - n_neg - n_bad - 4;
         via = VIA[(k % 2) as usize];
         su = setup(p, via == "stream").await;
         if su.ids.len() != 2 {
